@@ -97,6 +97,12 @@ def invoke(world, rec):
     if api == "lganm.new":
         def f():
             m = build_model(world, "lganm", dict(rec["m"]["spec"], seed=seed))
+            if rec.get("attr_order") == "vm":
+                # the caller looks at the parameters in another order (what a model is does not depend on it)
+                world.probes["model.parameters_read_in_another_order"] += 1
+                v = m.variances
+                mu = m.means
+                return (m.W, mu, v)
             return (m.W, m.means, m.variances)
         return f
     if api == "lganm.sample":
